@@ -171,6 +171,7 @@ Inductive body :=
             (expected : res (list nat * (list Q * list (mat Q)))) (after : list (mat Q)) (shared : list bool) (list_same self_is_result : bool)
 | ZHeapStale (inplace : bool) (arrs : list (mat Z)) (ls newls : list nat) (w : nat) (copy : bool) (x : operand (F:=Z)) (mode : nat) (keep_dim : bool)
              (expected : res (list nat * (list Z * list (mat Z))))
+| QTkNormBc (tape : list (list Q)) (core : tensor Q) (fs : list (mat Q)) (expected : res (list nat * list nat * (tensor Q * list (mat Q))))
 | QAlign (norm_t : bool) (rw : list Q) (rfs : list (mat Q)) (tw : list Q) (tfs : list (mat Q)) (tA tB : list (list Q)) (perm : list nat).
 
 Definition agree_body (b : body) : bool :=
@@ -232,7 +233,12 @@ Definition agree_body (b : body) : bool :=
   | ZTkDotApi core fs x m kd e =>
       res_eqb2 (fun o e' => nat_list_eqb (tko_shape o) (fst e') && nat_list_eqb (tko_rank o) (snd e')) (tucker_mode_dot_api Zops core fs x m kd) e
   | QTkNormApi tape core fs e =>
-      res_eqb2 (fun o e' => nat_list_eqb (tko_shape o) (fst e') && nat_list_eqb (tko_rank o) (snd e')) (tucker_normalize_api Qops tape core fs) e
+      res_eqb2 (fun o e' => nat_list_eqb (tko_shape o) (fst e') && nat_list_eqb (tko_rank o) (snd e')) (tucker_normalize_api Qops tape core fs) e &&
+      match tucker_normalize_api Qops tape core fs, tucker_normalize_bc Qops tape core fs with      (* the broadcasting model agrees *)
+      | Ok a, Ok b => qtk_close (tko_core a, tko_fs a) (tko_core b, tko_fs b) && nat_list_eqb (tko_shape a) (tko_shape b)
+      | Err, Err => true
+      | _, _ => false
+      end
   | ZHeapDot inplace arrs ls w cl cp x m kd e after shared same =>
       let (h0, r) := heap0 arrs ls w cl in
       match cp_mode_dot_h_src Zops inplace h0 r cp x m kd, e with
@@ -314,6 +320,11 @@ Definition agree_body (b : body) : bool :=
       | Err, Err => true
       | _, _ => false
       end
+  | QTkNormBc tape core fs e =>
+      (* tucker_normalize on any (core, factors), NumPy broadcasting included: verdict, shape / rank attributes, core and factors *)
+      res_eqb2 (fun o e' => nat_list_eqb (tko_shape o) (fst (fst e')) && nat_list_eqb (tko_rank o) (snd (fst e')) &&
+                            qtk_close (tko_core o, tko_fs o) (snd e'))
+               (tucker_normalize_bc Qops tape core fs) e
   | QAlign nt rw rfs tw tfs tA tB perm =>
       let A := norm_inputs Qops rw rfs in
       let B := if nt then norm_inputs Qops tw tfs else tfs in
